@@ -13,7 +13,7 @@ from .values import (
 
 KNOWN_MODULES = {"queue", "np", "numpy", "time", "warnings", "textwrap", "threading", "itertools", "math", "json", "pickle",
                  "pd", "h5py", "sps", "sm", "op", "xgb", "kernels", "multiprocessing", "contextlib", "sqlite3",
-                 "gzip", "io", "gym", "Path"}
+                 "gzip", "io", "gym", "Path", "Parallel", "delayed"}
 BUILTIN_EXC = {"ValueError", "TypeError", "KeyError", "IndexError", "AttributeError", "RuntimeError",
                "NotImplementedError", "AssertionError", "ZeroDivisionError", "Exception", "BaseException",
                "RuntimeWarning", "LinAlgError", "StopIteration", "OperationalError", "DatabaseError", "Error"}
@@ -295,11 +295,16 @@ class Frame:
         n = 0
         for node in ast.walk(fn) if fn is not None else []:
             pass
+        self.comp_ids = {}
+        nc = 0
         if fn is not None:
             for node in _preorder(fn):
                 if isinstance(node, (ast.For, ast.While)):
                     n += 1
                     self.loop_ids[id(node)] = n
+                elif isinstance(node, (ast.ListComp, ast.GeneratorExp)):
+                    nc += 1
+                    self.comp_ids[id(node)] = f"comp{nc}"
 
 
 def _preorder(node):
